@@ -85,5 +85,22 @@ CHECKS["C16"] = dict(
     technique="TLA+ model of field writes checked with TLC; enumerated and simulated write sequences replayed on real descriptor-managed fields",
 )
 
+CHECKS["C20"] = dict(
+    engine="SymbolGraph",
+    category="model_checking",
+    text=("SymbolGraph.tla carries two notions of death side by side: deadR (only the user's references keep an instance alive: "
+          "refcount on drop, cycles on collect - the property) and dead (as implemented: evaluated queries pin what their "
+          "variables ranged over); TLC checks dead = deadR and the registry invariant 'after a sweep nothing refers to a removed "
+          "node' with the deviation switches off and refutes StrongExprTable and PopIdOfNone. Every enumerated history with a "
+          "death (domain-less, explicit-domain and partially consumed queries included) is replayed with gc disabled and the "
+          "weak-reference census compared with liveR after every step; a census that differs is attributed to the open "
+          "finding only if it equals the as-implemented prediction exactly. Query-free histories are run as loop bodies and "
+          "the census of krrood-typed objects, graph nodes and relations must be flat."),
+    design_ref="DESIGN.md §4 C20",
+    note=("Trusted: TLC, CPython refcounting with gc disabled, gc.get_objects() as the census of krrood-held objects. Open "
+          "finding C20-F24 (expression tables pin queried instances) is reported as KNOWN-FINDING, never as a pass."),
+    technique="TLA+ lifetime/registry model checked with TLC; enumerated histories replayed with a weak-reference census; as-implemented model used for finding attribution",
+)
+
 NOT_YET = "check not built yet in this build round (specified in DESIGN.md §4; will be claimed when its TLA+ module and binding exist)"
 NOT_APPLICABLE = {}
